@@ -85,6 +85,63 @@ Definition currents (s : store) (t : N) (maxf : N) (p : asn -> bool) : list asn 
 Definition search (s : store) (t : N) (hint : list bytes) (maxf : N) : list N :=
   tags_of (currents s t maxf (fun x => hint_match hint (a_key x))).
 
+(* The filesystem backstore finds assertions by file name: every primary-key value is escaped into one path component
+   (url.QueryEscape) when an assertion is written and when a search pattern is built; an empty header is the wildcard.
+   [search_esc] is Search as the file names see it, for an arbitrary escape function; it is proved equal to [search]
+   for every injective escape (C19_search_any_injective_escape). *)
+Section Escape.
+  Variable esc : bytes -> bytes.
+  Fixpoint pat_match (hint k : list bytes) : bool :=
+    match hint, k with
+    | [], [] => true
+    | h :: hint', x :: k' => (is_nil_b h || beq (esc h) (esc x)) && pat_match hint' k'
+    | _, _ => false
+    end.
+  Definition search_esc (s : store) (t : N) (hint : list bytes) (maxf : N) : list N :=
+    tags_of (currents s t maxf (fun x => pat_match hint (a_key x))).
+End Escape.
+
+(* escapeComp of asserts/fsbackstore.go: url.QueryEscape (letters, digits and - _ . ~ stay, a space becomes +, every
+   other byte becomes %XX with upper-case hex digits), then the two values that name directories, "." and "..", get
+   their dots escaped as well (repair 2f752eb). *)
+Definition hex_digit (d : N) : N := if d <? 10 then 48 + d else 55 + d.
+Definition unreserved (c : N) : bool :=
+  is_alpha c || is_digit c || (c =? 45) || (c =? 95) || (c =? 46) || (c =? 126).
+
+Fixpoint query_escape (s : bytes) : bytes :=
+  match s with
+  | [] => []
+  | c :: r => if unreserved c then c :: query_escape r
+              else if c =? 32 then 43 :: query_escape r
+              else 37 :: hex_digit (c / 16) :: hex_digit (c mod 16) :: query_escape r
+  end.
+
+Definition ESC_DOT : bytes := [37; 50; 69].                       (* %2E *)
+Definition escape_comp (s : bytes) : bytes :=
+  let q := query_escape s in
+  if beq q [46] then ESC_DOT else if beq q [46; 46] then ESC_DOT ++ ESC_DOT else q.
+
+(* url.QueryUnescape, used only to state that the escape can be undone *)
+Definition unhex (c : N) : N := if c <? 58 then c - 48 else c - 55.
+Fixpoint unescape (s : bytes) : bytes :=
+  match s with
+  | [] => []
+  | c :: r => if c =? 43 then 32 :: unescape r
+              else if c =? 37 then match r with
+                                   | h :: l :: r' => (unhex h * 16 + unhex l) :: unescape r'
+                                   | _ => c :: unescape r
+                                   end
+              else c :: unescape r
+  end.
+
+(* filepath.Join cleans the joined path: a component "." disappears and ".." removes the component before it; the
+   escaped components are never one of the two (C19_escape_safe), so every key keeps a path of its own. *)
+Definition DOT : bytes := [46].
+Definition DOTDOT : bytes := [46; 46].
+Definition is_dot (c : bytes) : bool := beq c DOT || beq c DOTDOT.
+Definition clean_path (k : list bytes) : list bytes :=
+  fold_left (fun acc c => if beq c DOT then acc else if beq c DOTDOT then removelast acc else acc ++ [c]) k [].
+
 (* SequenceMemberAfter(sequenceKey, after, maxFormat): after = -1 -> the latest member; otherwise the first member with
    a sequence number > after; only members that have an assertion with format <= maxFormat count *)
 Definition prefix_of (k : list bytes) : list bytes := removelast k.
@@ -166,7 +223,9 @@ Fixpoint db_run (d : db) (ops : list op) : db * list obs :=
 (* the same history on the memory backstore, the filesystem backstore and a Database (memory backstore underneath,
    with the given trusted and predefined primary keys) *)
 Inductive case :=
-| CHist (trusted predefined : list (N * list bytes)) (ops : list op) (mem fs dbo : list obs).
+| CHist (trusted predefined : list (N * list bytes)) (ops : list op) (mem fs dbo : list obs)
+(* the name of the directory the filesystem backstore created for a one-key assertion with primary key [v] *)
+| CEsc (v dirname : bytes).
 
 Fixpoint list_eqbN (a b : list N) : bool :=
   match a, b with
@@ -200,8 +259,10 @@ Fixpoint obs_list_eqb (a b : list obs) : bool :=
 Definition mismatch (c : case) : bool :=
   match c with
   | CHist tr pd ops mem fs dbo =>
-      negb (obs_list_eqb (snd (bs_run [] ops)) mem && obs_list_eqb (snd (bs_run [] ops)) fs
+      negb (obs_list_eqb (snd (bs_run [] ops)) mem
+            && obs_list_eqb (snd (bs_run [] ops)) fs
             && obs_list_eqb (snd (db_run (mkDb tr pd []) ops)) dbo)
+  | CEsc v dirname => negb (beq (escape_comp v) dirname)
   end.
 
 (* The property's conclusion evaluated on the observed behaviour, with a reference that is deliberately not the
@@ -268,4 +329,6 @@ Definition monitor_fail (c : case) : bool :=
       negb (obs_list_eqb mem fs)
       || (only_supported ops && negb (monitor_bs [] ops mem && monitor_bs [] ops fs))
       || negb (monitor_db tr pd [] ops dbo)
+  | CEsc v dirname =>        (* the name is a single, ordinary path component and leads back to the key *)
+      is_dot dirname || is_nil_b dirname || existsb (fun c => c =? 47) dirname || negb (beq (unescape dirname) v)
   end.
